@@ -3,9 +3,10 @@ import itertools
 
 from core import rng, run_cases
 
-MODULES = ["Props.C14"]
+MODULES = ["Props.C14", "Props.C14Tie"]
 THEOREMS = ["Props.C14.c14_table", "Props.C14.c14_latch_never_negative", "Props.C14.c14_nocontrib_neutral",
-            "Props.C14.c14_onmatch_gate", "Props.C14.c14_history", "Props.C14.c14_outside_quantifier"]
+            "Props.C14.c14_onmatch_gate", "Props.C14.c14_history", "Props.C14.c14_outside_quantifier",
+            "Props.C14Tie.qualifier_words"]
 
 
 def run(check, tier):
